@@ -384,3 +384,37 @@ Theorem C11_has_permission_ancestors : forall R W W' ctx l l' reqctx ps p,
   = hp_granted (gen_has_permission R (Some (map (acl_of W) l)) reqctx ps p).
 Proof. exact has_permission_ancestors. Qed.
 Print Assumptions C11_has_permission_ancestors.
+
+(* ---- proof-only round 3: a child's ACL and the principals reported for its parent (Proofs/C11_more2.v) *)
+Require Import Verif.Proofs.C11_more2.
+
+Theorem C11_principals_allowed_child : forall a L p q,
+  In q (principals_allowed (Some a :: L) p) <->
+  match scanx q p a with Some b => b = true | None => In q (principals_allowed L p) end.
+Proof. exact principals_allowed_child. Qed.
+Print Assumptions C11_principals_allowed_child.
+
+Theorem C11_principals_allowed_child_generated : forall a L p q,
+  In q (gen_principals_allowed (Some a :: L) p) <->
+  match scanx q p a with Some b => b = true | None => In q (gen_principals_allowed L p) end.
+Proof. exact gen_principals_allowed_child. Qed.
+Print Assumptions C11_principals_allowed_child_generated.
+
+Theorem C11_principals_allowed_no_acl : forall L p, principals_allowed (None :: L) p = principals_allowed L p.
+Proof. exact principals_allowed_no_acl. Qed.
+Print Assumptions C11_principals_allowed_no_acl.
+
+Theorem C11_principals_allowed_inherits : forall a L p q,
+  find (explicit_for q p) a = None ->
+  (In q (principals_allowed (Some a :: L) p) <-> In q (principals_allowed L p)).
+Proof. exact principals_allowed_inherits. Qed.
+Print Assumptions C11_principals_allowed_inherits.
+
+Theorem C11_principals_allowed_descendants_generated : forall D L p q,
+  In q (gen_principals_allowed (D ++ L) p) <->
+  match find (explicit_for q p) (flatten D) with
+  | Some e => is_allow (act e) = true
+  | None => In q (gen_principals_allowed L p)
+  end.
+Proof. exact gen_principals_allowed_app. Qed.
+Print Assumptions C11_principals_allowed_descendants_generated.
